@@ -121,6 +121,8 @@ def layouts(D, tier):
                 {"segs": [D], "deleted": [1], "optimize": True, "blocklimit": 2}]
     if tier == "mid":
         delsets = [[], [0], [D - 1], [1, 2] if D > 3 else [1]]
+    elif tier == "comps":
+        delsets = [[1, 2] if D > 3 else [1]]
     else:
         delsets = [list(c) for r in range(0, D) for c in itertools.combinations(range(D), r)]
     for segs in comps:
@@ -439,11 +441,13 @@ def run(ctx):
         plan = [(4, "d1", "mixed", 8), (3, "d2_terms", "light", 8)]
     else:
         # (D, family, paths, slices, layout set)
-        plan = [(4, "d1", "full", 8, "mid"),            # every path, 35 index variants
+        # sized with VERIF_PROGRESS=1 to ~40 minutes on 16 cores
+        plan = [(4, "d1", "full", 8, "quick"),          # every access path
+                (4, "d1", "mixed", 8, "mid"),           # 35 index variants, paths rotate over them
                 (4, "d1_noternary", "light", 4, "thorough"),  # every deletion subset x composition
-                (3, "d2", "mixed", 8, "thorough"),
+                (3, "d2", "mixed", 8, "mid"),
                 (4, "d2_terms", "light", 32, "quick"),
-                (5, "d1_noternary", "light", 8, "mid")]
+                (5, "d1_noternary", "light", 8, "comps")]   # every segment composition of 5 documents
     plan = [p if len(p) == 5 else p + ("quick",) for p in plan]
     nlay = 0
     for D, family, pm, nsl, lset in plan:
